@@ -57,12 +57,15 @@ func (kv *KeyValue) Flush() error {
 	kv.mu.Lock()
 	defer kv.mu.Unlock()
 	var (
-		bmback = kv.back.BeginBatch()
+		bmback sorted.BatchMutation // begun lazily: an open batch may hold a lock on the backing store
 		bmbuf  = kv.buf.BeginBatch()
 		commit = false
 		it     = kv.buf.Find("", "")
 	)
 	for it.Next() {
+		if bmback == nil {
+			bmback = kv.back.BeginBatch()
+		}
 		bmback.Set(it.Key(), it.Value())
 		bmbuf.Delete(it.Key())
 		commit = true
